@@ -290,3 +290,72 @@ fn c09_widths_and_degrees() {
     }
     finish("c09_widths_and_degrees", cases, bad);
 }
+
+// C04 (STARK transcript): every statement parameter and every prover message changes all challenges drawn after it
+#[test]
+fn c04_stark_transcript() {
+    use plonky2::iop::challenger::Challenger;
+    use plonky2::hash::poseidon::PoseidonHash;
+    let mut bad = Vec::new();
+    let mut cases = 0usize;
+    let config = StarkConfig::standard_fast_config();
+    let n = 2048usize;   // large enough for FRI commit-phase layers
+    let stark = Fib::<F, D> { num_rows: n, _p: PhantomData };
+    let rows = trace(n, F::ZERO, F::ONE);
+    let pis = [F::ZERO, F::ONE, rows[n - 1][1]];
+    let proof = match prove_rows(stark, rows, pis, &config) { Ok(p) => p, Err(e) => { bad.push(format!("honest proof: {e}")); finish("c04_stark_transcript", 1, bad); return; } };
+    // challenge vector in drawing order: alphas, zeta, fri_alpha, betas.., pow response, query indices
+    let chal = |p: &StarkProofWithPublicInputs<F, C, D>, cfg: &StarkConfig| -> Option<Vec<Vec<u64>>> {
+        catch_unwind(AssertUnwindSafe(|| {
+            let mut ch = Challenger::<F, PoseidonHash>::new();
+            let c = p.get_challenges(&stark, &mut ch, None, None, false, cfg, None);
+            let ext = |e: FE| { let a: [F; D] = e.to_basefield_array(); a.iter().map(|x| x.to_canonical_u64()).collect::<Vec<u64>>() };
+            let mut v: Vec<Vec<u64>> = Vec::new();
+            v.push(c.stark_alphas.iter().map(|x| x.to_canonical_u64()).collect());
+            v.push(ext(c.stark_zeta));
+            v.push(ext(c.fri_challenges.fri_alpha));
+            v.push(c.fri_challenges.fri_betas.iter().flat_map(|&b| ext(b)).collect());
+            v.push(vec![c.fri_challenges.fri_pow_response.to_canonical_u64()]);
+            v.push(c.fri_challenges.fri_query_indices.iter().map(|&i| i as u64).collect());
+            v
+        })).ok()
+    };
+    let Some(base) = chal(&proof, &config) else { bad.push("challenge derivation of the honest proof panicked".into()); finish("c04_stark_transcript", 1, bad); return; };
+    let ncaps = proof.proof.opening_proof.commit_phase_merkle_caps.len();
+    if ncaps == 0 { bad.push("harness: the proof has no commit-phase caps".into()); }
+    // (what, first challenge group that must change, mutation); groups: 0 alphas, 1 zeta, 2 fri_alpha, 3 betas, 4 pow response, 5 query indices
+    let mut muts: Vec<(String, usize, Box<dyn Fn(&mut StarkProofWithPublicInputs<F, C, D>)>)> = Vec::new();
+    muts.push(("trace cap".into(), 0, Box::new(|p| p.proof.trace_cap.0[0].elements[0] += F::ONE)));
+    muts.push(("last trace cap entry".into(), 0, Box::new(|p| { let l = p.proof.trace_cap.0.len() - 1; p.proof.trace_cap.0[l].elements[3] += F::ONE; })));
+    for k in 0..3 { muts.push((format!("public input {k}"), 0, Box::new(move |p| p.public_inputs[k] += F::ONE))); }
+    muts.push(("quotient cap".into(), 1, Box::new(|p| { if let Some(c) = p.proof.quotient_polys_cap.as_mut() { c.0[0].elements[1] += F::ONE; } })));
+    muts.push(("local opening".into(), 2, Box::new(|p| p.proof.openings.local_values[0] += FE::ONE)));
+    muts.push(("next-row opening".into(), 2, Box::new(|p| p.proof.openings.next_values[1] += FE::ONE)));
+    muts.push(("quotient opening".into(), 2, Box::new(|p| { if let Some(q) = p.proof.openings.quotient_polys.as_mut() { let l = q.len() - 1; q[l] += FE::ONE; } })));
+    for k in 0..ncaps { muts.push((format!("commit-phase cap {k}"), 3, Box::new(move |p| p.proof.opening_proof.commit_phase_merkle_caps[k].0[0].elements[0] += F::ONE))); }
+    muts.push(("final polynomial coefficient 0".into(), 4, Box::new(|p| p.proof.opening_proof.final_poly.coeffs[0] += FE::ONE)));
+    muts.push(("last final polynomial coefficient".into(), 4, Box::new(|p| { let l = p.proof.opening_proof.final_poly.coeffs.len() - 1; p.proof.opening_proof.final_poly.coeffs[l] += FE::ONE; })));
+    muts.push(("proof-of-work witness".into(), 4, Box::new(|p| p.proof.opening_proof.pow_witness += F::ONE)));
+    for (what, first, m) in &muts {
+        let mut p2 = proof.clone(); m(&mut p2);
+        cases += 1;
+        let Some(c2) = chal(&p2, &config) else { bad.push(format!("altered {what}: challenge derivation panicked")); continue; };
+        for g in *first..6 {
+            // commit-phase cap k only influences betas from k on: compare the whole group, which contains beta k
+            if c2[g] == base[g] && !(base[g].is_empty()) { bad.push(format!("altered {what}: challenge group {g} ({}) is unchanged", ["alphas", "zeta", "fri_alpha", "betas", "pow response", "query indices"][g])); break; }
+        }
+        // messages sent later must not influence challenges drawn earlier
+        for g in 0..*first { if c2[g] != base[g] { bad.push(format!("altered {what}: EARLIER challenge group {g} changed (the message is absorbed too early or the order is wrong)")); break; } }
+    }
+    // statement parameters: every configuration value is part of the transcript
+    let mut cfgs: Vec<(&'static str, StarkConfig)> = Vec::new();
+    { let mut c = config.clone(); c.security_bits += 1; cfgs.push(("security_bits", c)); }
+    { let mut c = config.clone(); c.fri_config.proof_of_work_bits += 1; cfgs.push(("proof_of_work_bits", c)); }
+    { let mut c = config.clone(); c.fri_config.num_query_rounds += 1; cfgs.push(("num_query_rounds", c)); }
+    for (what, cfg) in &cfgs {
+        cases += 1;
+        let Some(c2) = chal(&proof, cfg) else { continue; };
+        if c2[0] == base[0] || c2[1] == base[1] || c2[2] == base[2] { bad.push(format!("configuration value {what} altered: alphas / zeta / fri_alpha unchanged")); }
+    }
+    finish("c04_stark_transcript", cases, bad);
+}
